@@ -158,7 +158,12 @@ def _defs(fi: FunctionInfo, name: str) -> list[tuple[ast.stmt, ast.expr | None, 
                 if isinstance(t, ast.Name) and t.id == name:
                     out.append((n, n.value, "assign"))
                 elif isinstance(t, (ast.Tuple, ast.List)) and any(isinstance(e, ast.Name) and e.id == name for e in t.elts):
-                    out.append((n, None, "other"))
+                    if isinstance(n.value, (ast.Tuple, ast.List)) and len(n.value.elts) == len(t.elts) and not any(isinstance(e, ast.Starred) for e in list(t.elts) + list(n.value.elts)):
+                        for te, ve in zip(t.elts, n.value.elts):  # a, b = x, y
+                            if isinstance(te, ast.Name) and te.id == name:
+                                out.append((n, ve, "assign"))
+                    else:
+                        out.append((n, None, "other"))
         elif isinstance(n, ast.AnnAssign) and isinstance(n.target, ast.Name) and n.target.id == name and n.value is not None:
             out.append((n, n.value, "assign"))
         elif isinstance(n, ast.AugAssign) and isinstance(n.target, ast.Name) and n.target.id == name:
@@ -489,7 +494,10 @@ def r1_stamping(corpus: Corpus, rep: Report, tier: str):
                 continue
             rep.saw_function(fi.fq)
             p = parent(call)
-            var = p.targets[0].id if isinstance(p, ast.Assign) and len(p.targets) == 1 and isinstance(p.targets[0], ast.Name) and p.value is call else None
+            top = call
+            while isinstance(p, ast.IfExp) and top is not p.test:  # x = nodes.A() if c else nodes.B()
+                top, p = p, parent(p)
+            var = p.targets[0].id if isinstance(p, ast.Assign) and len(p.targets) == 1 and isinstance(p.targets[0], ast.Name) and p.value is top else None
             base = f"{fi.fq}|{var or 'inline'} = nodes.{cls}"
             seen_keys[base] = seen_keys.get(base, 0) + 1
             k = base if seen_keys[base] == 1 else f"{base}#{seen_keys[base]}"
@@ -930,11 +938,24 @@ def r2_line_kinds(corpus: Corpus, rep: Report, tier: str):
         if not callers:
             rep.error(R2, f"no call site of {sink.name} found")
         nth: dict[str, int] = {}
-        for cfi, call in sorted(callers, key=lambda x: (x[0].fq, x[1].lineno, x[1].col_offset)):
+        # a private helper that merely forwards its own parameter as the line argument is looked through:
+        # the convention belongs to the helper's callers (up to two levels)
+        sites: list[tuple[FunctionInfo, ast.Call, ast.expr | None]] = []
+        work = [(cfi, call, arg_or_kw(call, idx, kwname), 0) for cfi, call in callers]
+        while work:
+            cfi, call, arg, lvl = work.pop()
+            if (sink.name, cfi.fq) not in NRT_CONVENTION and lvl < 2 and isinstance(arg, ast.Name) and arg.id in cfi.params and not _defs(cfi, arg.id):
+                ups = _real_callers(corpus, cfi)
+                if ups:
+                    for ufi, ucall in ups:
+                        uarg = _arg_for(ucall, cfi, arg.id)
+                        work.append((ufi, ucall, uarg if uarg is not None else _param_default(cfi, arg.id), lvl + 1))
+                    continue
+            sites.append((cfi, call, arg))
+        for cfi, call, arg in sorted(sites, key=lambda x: (x[0].fq, x[1].lineno, x[1].col_offset)):
             ck = (sink.name, cfi.fq)
             site = cfi.module.site(call)
             rep.saw_call(site)
-            arg = arg_or_kw(call, idx, kwname)
             nth[cfi.fq] = nth.get(cfi.fq, 0) + 1
             k = f"{cfi.fq}|{sink.name}|{kwname}={short(arg, 50) if arg is not None else '?'}" + (f"#{nth[cfi.fq]}" if nth[cfi.fq] > 1 else "")
             if ck not in NRT_CONVENTION:
@@ -1084,6 +1105,8 @@ def r3_shift_once(corpus: Corpus, rep: Report, tier: str):
     g = get_callgraph(corpus)
     BUILTIN_VIEW = {"len", "list", "tuple", "enumerate", "iter", "reversed", "sorted", "bool", "any", "all", "isinstance"}
 
+    extra_calls: dict[tuple[str, str], list[ast.Call]] = {}
+
     def shift_impl(fi: FunctionInfo, depth: int = 0):
         """Where the map stores of ``fi`` live: (body function, chain of (caller, call)) following private helpers."""
         if _map_stores(fi):
@@ -1097,9 +1120,10 @@ def r3_shift_once(corpus: Corpus, rep: Report, tier: str):
                     body, chain = shift_impl(t, depth + 1)
                     if body is not None and (t.fq, id(call)) not in {(c[0].fq, id(c[2])) for c in cands}:
                         cands.append((t, body, call, chain))
-        if len(cands) != 1:
+        if len({c[0].fq for c in cands}) != 1:
             return None, [("ambiguous" if cands else "none", len(cands))]
-        t, body, call, chain = cands[0]
+        t, body, call, chain = sorted(cands, key=lambda c: (c[2].lineno, c[2].col_offset))[0]
+        extra_calls[(fi.fq, t.fq)] = [c[2] for c in cands]
         return body, [(fi, t, call)] + chain
 
     impls = {}
@@ -1207,11 +1231,11 @@ def r3_shift_once(corpus: Corpus, rep: Report, tier: str):
         if list_name is None:
             continue
         tcfg = get_cfg(top)
-        helper_call_stmt = tcfg.stmt_of(chain[0][2]) if chain else None
+        helper_call_stmts = [tcfg.stmt_of(c) for c in extra_calls.get((top.fq, chain[0][1].fq), [])] if chain else []
         # hand-over points: the (shifted) list is passed on to something that reads the maps
         hand = []
         for n in top.local_nodes():
-            if isinstance(n, ast.Call) and (chain == [] or n is not chain[0][2]) and (dotted(n.func) or "") not in BUILTIN_VIEW:
+            if isinstance(n, ast.Call) and (chain == [] or n not in extra_calls.get((top.fq, chain[0][1].fq), [])) and (dotted(n.func) or "") not in BUILTIN_VIEW:
                 if any(isinstance(a, ast.Name) and a.id == list_name for a in list(n.args) + [kw.value for kw in n.keywords]):
                     hand.append(n)
         if top is nrt:
@@ -1228,9 +1252,9 @@ def r3_shift_once(corpus: Corpus, rep: Report, tier: str):
             inner = cfg.counts("ENTRY", ["EXIT"], lambda n, loop=loop: 1 if n == ("F", loop) else 0).get("EXIT", set())
             for caller, helper, call in chain[1:]:
                 ccfg = get_cfg(caller)
-                cs = ccfg.stmt_of(call)
-                inner = inner if ccfg.counts("ENTRY", ["EXIT"], lambda n, cs=cs: 1 if n is cs else 0).get("EXIT", set()) == {1} else {0, 2}
-            outer = tcfg.counts("ENTRY", [rs], lambda n: 1 if n is helper_call_stmt else 0).get(rs, set())
+                css = [ccfg.stmt_of(c) for c in extra_calls.get((caller.fq, helper.fq), [call])]
+                inner = inner if ccfg.counts("ENTRY", ["EXIT"], lambda n, css=css: sum(1 for h in css if n is h)).get("EXIT", set()) == {1} else {0, 2}
+            outer = tcfg.counts("ENTRY", [rs], lambda n: sum(1 for h in helper_call_stmts if n is h)).get(rs, set())
             cnt = {1} if (inner == {1} and outer == {1}) else (outer if outer != {1} else inner)
         else:
             cnt = cfg.counts("ENTRY", [rs], lambda n, loop=loop: 1 if n == ("F", loop) else 0).get(rs, set())
@@ -1490,6 +1514,17 @@ def _path_kind(e: ast.expr | None, fi: FunctionInfo, corpus: Corpus, depth: int 
     return "unknown"
 
 
+def _assign_pairs(n: ast.AST):
+    """(target, value) pairs of an assignment; ``a, b = x, y`` is split element-wise."""
+    if not isinstance(n, ast.Assign):
+        return
+    for t in n.targets:
+        if isinstance(t, (ast.Tuple, ast.List)) and isinstance(n.value, (ast.Tuple, ast.List)) and len(t.elts) == len(n.value.elts):
+            yield from zip(t.elts, n.value.elts)
+        else:
+            yield t, n.value
+
+
 def _is_path_var(name: str, fi: FunctionInfo) -> bool:
     for n in fi.local_nodes():
         if isinstance(n, ast.Call) and isinstance(n.func, ast.Attribute) and n.func.attr in ("read_text", "read_bytes", "open") and isinstance(n.func.value, ast.Name) and n.func.value.id == name:
@@ -1545,47 +1580,51 @@ def r5_source_path(corpus: Corpus, rep: Report, tier: str):
         rep.violation(R5, f"{run.fq}|nested render inside try/finally", site, "the included text is rendered outside a try/finally: an exception leaves document['source'] pointing at the included file")
         return
     readers = [n.func.value.id for n in run.local_nodes() if isinstance(n, ast.Call) and isinstance(n.func, ast.Attribute) and n.func.attr == "read_text" and isinstance(n.func.value, ast.Name)]
-    swapped: dict[str, ast.Assign] = {}
+    swapped: dict[str, tuple[ast.Assign, ast.expr]] = {}
     for s in tr.body:
         for n in ast.walk(s):
             if isinstance(n, ast.Assign):
-                for t in n.targets:
+                for t, tv in _assign_pairs(n):
                     ut = unparse(t)
                     if ut.endswith(("['source']", ".source", ".get_source_and_line")):
-                        swapped[ut] = n
+                        swapped[ut] = (n, tv)
                         if n.lineno > call.lineno:
                             rep.violation(R5, f"{run.fq}|swap precedes render|{ut}", run.module.site(n), f"{ut} is swapped after the nested render")
     need = all(any(u.endswith(sfx) for u in swapped) for sfx in ("document['source']", "reporter.source", ".get_source_and_line"))
     if not need:
         rep.violation(R5, f"{run.fq}|swaps document source, reporter source and get_source_and_line", site, f"the include mock swaps only {sorted(swapped)}: nodes/warnings of the included file would carry the including file's path")
-    for ut, n in swapped.items():
+    for ut, (n, v) in swapped.items():
         k = f"{run.fq}|swap {ut}"
-        v = n.value
         if isinstance(v, ast.Lambda) and isinstance(v.body, ast.Tuple) and v.body.elts:
             v = v.body.elts[0]
+        if isinstance(v, ast.Name):  # hoisted: inc = str(path)
+            one = [d for _, d, how in _defs(run, v.id) if how == "assign" and d is not None]
+            if len(one) == 1 and len(_defs(run, v.id)) == 1:
+                v = one[0]
         is_inc = isinstance(v, ast.Call) and dotted(v.func) == "str" and len(v.args) == 1 and isinstance(v.args[0], ast.Name) and v.args[0].id in readers
         if is_inc:
             rep.ok(R5, k, run.module.site(n), "str(<path the text was read from>)")
         else:
-            rep.violation(R5, k, run.module.site(n), f"during the nested render {ut} is set to `{short(n.value, 50)}`, which is not the path the included file was read from ({readers})")
+            rep.violation(R5, k, run.module.site(n), f"during the nested render {ut} is set to `{short(v, 50)}`, which is not the path the included file was read from ({readers})")
         # restore in finally from a name saved before the try
-        restored = None
+        restored = rvalue = None
         for s in tr.finalbody:
             for m in ast.walk(s):
-                if isinstance(m, ast.Assign) and any(unparse(t) == ut for t in m.targets):
-                    restored = m
+                for t, tv in _assign_pairs(m):
+                    if unparse(t) == ut:
+                        restored, rvalue = m, tv
         k = f"{run.fq}|restore {ut}"
-        if restored is None or not isinstance(restored.value, ast.Name):
+        if restored is None or not isinstance(rvalue, ast.Name):
             rep.violation(R5, k, run.module.site(tr), f"{ut} is not restored in the finally block: everything after the include directive reports the included file as its source")
             continue
-        saved = [(st, v2) for st, v2, how in _defs(run, restored.value.id) if how == "assign"]
+        saved = [(m, tv) for m in run.local_nodes() for t, tv in _assign_pairs(m) if isinstance(t, ast.Name) and t.id == rvalue.id]
         ok = len(saved) == 1 and saved[0][0].lineno < tr.lineno and (
             unparse(saved[0][1]) == ut or (isinstance(saved[0][1], ast.Call) and dotted(saved[0][1].func) == "getattr" and ut.endswith("." + str(getattr(saved[0][1].args[1], "value", ""))) and unparse(saved[0][1].args[0]) == ut.rsplit(".", 1)[0])
         )
         if ok:
-            rep.ok(R5, k, run.module.site(restored), f"from `{restored.value.id}` saved before the try")
+            rep.ok(R5, k, run.module.site(restored), f"from `{rvalue.id}` saved before the try")
         else:
-            rep.violation(R5, k, run.module.site(restored), f"{ut} is restored from `{restored.value.id}`, which is not the value of {ut} saved before the try")
+            rep.violation(R5, k, run.module.site(restored), f"{ut} is restored from `{rvalue.id}`, which is not the value of {ut} saved before the try")
     rep.expect_min(R5, 10, ".source stores and the include mock's swap/restore pairs")
 
 
@@ -1710,13 +1749,48 @@ def r6_body_offset_pairing(corpus: Corpus, rep: Report, tier: str):
             if not (isinstance(b, ast.Name) and isinstance(o, ast.Name)):
                 rep.error(R6, f"{fi.module.site(call)}: body / body_offset of DirectiveParsingResult are not plain local names; pairing not understood")
                 continue
-            B, O = b.id, o.id
+            _judge_pairing(corpus, rep, fi, b.id, o.id, 0)
+    if n_ctor == 0:
+        rep.error(R6, "no construction of DirectiveParsingResult found")
+    rep.expect_min(R6, 2, "head edits of the directive body in parse_directive_text (blank-line strip, first-line insert)")
+
+
+def _judge_pairing(corpus: Corpus, rep: Report, fi: FunctionInfo, B: str, O: str, depth: int) -> None:
+    """Pair the head edits of list ``B`` with the moves of offset ``O`` inside ``fi`` (helpers that take and return both are followed)."""
+    g = get_callgraph(corpus)
+    if True:
+        if True:
+            # `B, O = helper(B, O, ...)`: the pairing is judged inside the helper
+            for n in fi.local_nodes():
+                if not (isinstance(n, ast.Assign) and len(n.targets) == 1 and isinstance(n.targets[0], (ast.Tuple, ast.List))):
+                    continue
+                names = [e.id if isinstance(e, ast.Name) else None for e in n.targets[0].elts]
+                if B not in names and O not in names:
+                    continue
+                ok = False
+                if B in names and O in names and isinstance(n.value, ast.Call) and depth < 2:
+                    hs = [t for t in g.resolve_call(n.value, fi) if isinstance(t, FunctionInfo) and not t.is_lambda]
+                    if len(hs) == 1:
+                        h = hs[0]
+                        pb = [p for p in h.params if isinstance(_arg_for(n.value, h, p), ast.Name) and _arg_for(n.value, h, p).id == B]
+                        po = [p for p in h.params if isinstance(_arg_for(n.value, h, p), ast.Name) and _arg_for(n.value, h, p).id == O]
+                        rets = [r for r in h.local_nodes() if isinstance(r, ast.Return)]
+                        shape = bool(rets) and all(
+                            isinstance(r.value, ast.Tuple) and len(r.value.elts) == len(names) and len(pb) == 1 and len(po) == 1
+                            and unparse(r.value.elts[names.index(B)]) == pb[0] and unparse(r.value.elts[names.index(O)]) == po[0]
+                            for r in rets
+                        )
+                        if shape:
+                            _judge_pairing(corpus, rep, h, pb[0], po[0], depth + 1)
+                            ok = True
+                if not ok:
+                    rep.error(R6, f"{fi.module.site(n)}: `{short(n, 60)}` rebinds the body and/or its offset from a call; pairing not understood")
             be, oe = _head_edits(fi, B), _offset_edits(fi, O)
             for st, kind, _ in be + oe:
                 if kind == "unknown":
                     rep.error(R6, f"{fi.module.site(st)}: `{short(st, 60)}` changes `{B if (st, kind, _) in be else O}` in a way the pairing rule does not understand")
             if any(kind == "unknown" for _, kind, _ in be + oe):
-                continue
+                return
             by_list_o: dict = {}
             for st, kind, amt in oe:
                 by_list_o.setdefault(_stmt_list_of(st)[0], []).append((st, kind, amt))
@@ -1780,9 +1854,6 @@ def r6_body_offset_pairing(corpus: Corpus, rep: Report, tier: str):
                     rep.violation(R6, k, fi.module.site(st), f"`{short(st, 50)}` moves body_offset although no leading line is removed from `{B}` in the same block")
                 else:
                     rep.error(R6, f"{fi.module.site(st)}: `{short(st, 50)}` resets body_offset outside an initialisation or a prepend; not understood")
-    if n_ctor == 0:
-        rep.error(R6, "no construction of DirectiveParsingResult found")
-    rep.expect_min(R6, 2, "head edits of the directive body in parse_directive_text (blank-line strip, first-line insert)")
 
 
 RULES = [r1_stamping, r2_line_kinds, r3_shift_once, r4_lossy_round_trip, r5_source_path, r6_body_offset_pairing]
